@@ -1332,20 +1332,77 @@ func (ev *Event) Serialize() ([]byte, error) {
 		return nil, errors.New("nil event")
 	}
 
-	v := [6]any{
-		0,
-		ev.Pubkey,
-		ev.CreatedAt,
-		ev.Kind,
-		ev.Tags,
-		ev.Content,
+	// NIP-01 canonical serialization: [0,pubkey,created_at,kind,tags,content] as compact JSON
+	// using only the escapes NIP-01 mandates (encoding/json would also escape <, >, &, U+2028 and U+2029).
+	ret := make([]byte, 0, 128+len(ev.Content))
+	ret = append(ret, '[', '0', ',')
+	ret = appendNIP01String(ret, ev.Pubkey)
+	ret = append(ret, ',')
+	ret = strconv.AppendInt(ret, ev.CreatedAt, 10)
+	ret = append(ret, ',')
+	ret = strconv.AppendInt(ret, ev.Kind, 10)
+	ret = append(ret, ',')
+	if ev.Tags == nil {
+		ret = append(ret, nullJSON...)
+	} else {
+		ret = append(ret, '[')
+		for i, tag := range ev.Tags {
+			if i > 0 {
+				ret = append(ret, ',')
+			}
+			if tag == nil {
+				ret = append(ret, nullJSON...)
+				continue
+			}
+			ret = append(ret, '[')
+			for j, elem := range tag {
+				if j > 0 {
+					ret = append(ret, ',')
+				}
+				ret = appendNIP01String(ret, elem)
+			}
+			ret = append(ret, ']')
+		}
+		ret = append(ret, ']')
 	}
-
-	ret, err := json.Marshal(&v)
-	if err != nil {
-		return nil, fmt.Errorf("failed to marshal event: %w", err)
-	}
+	ret = append(ret, ',')
+	ret = appendNIP01String(ret, ev.Content)
+	ret = append(ret, ']')
 	return ret, nil
+}
+
+// appendNIP01String appends s as a JSON string literal escaped as NIP-01 prescribes.
+func appendNIP01String(dst []byte, s string) []byte {
+	dst = append(dst, '"')
+	for i := 0; i < len(s); i++ {
+		dst = appendNIP01Byte(dst, s[i])
+	}
+	return append(dst, '"')
+}
+
+// appendNIP01Byte appends one byte of a string: the two-character escapes for
+// backspace, tab, line feed, form feed, carriage return, double quote and backslash,
+// \u00xx for the other control characters, and every other byte verbatim.
+func appendNIP01Byte(dst []byte, c byte) []byte {
+	const hexDigits = "0123456789abcdef"
+	switch c {
+	case '"', '\\':
+		return append(dst, '\\', c)
+	case '\b':
+		return append(dst, '\\', 'b')
+	case '\t':
+		return append(dst, '\\', 't')
+	case '\n':
+		return append(dst, '\\', 'n')
+	case '\f':
+		return append(dst, '\\', 'f')
+	case '\r':
+		return append(dst, '\\', 'r')
+	}
+	if c < 0x20 {
+		return append(dst, '\\', 'u', '0', '0', hexDigits[c>>4], hexDigits[c&0xf])
+	}
+	return append(dst, c)
 }
 
 func (ev *Event) Verify() (bool, error) {
